@@ -1,6 +1,7 @@
 """Boundary recorder for HdlcFrameReader: feed chunks, record what read() returns."""
 from __future__ import annotations
 
+from vf.mon import clock
 from vf.ref import hdlc_ref
 
 
@@ -46,6 +47,7 @@ def run(cfg, chunks, ctx=None, reader=None, states: set | None = None):
     kept = []
     err = None
     for ch in chunks:
+        clock.tick()
         try:
             frames = reader.read(ch)
         except Exception as ex:  # recorded, never swallowed silently: C14 decides on it
